@@ -11,7 +11,7 @@ SCALARS = ['u8', 'u16', 'u32', 'u64', 'i32', 'f32', 'Bool', 'Guid', 'PackedGuid'
 ARRAY_ELEMS = ['u8', 'u16', 'u32', 'u64', 'Guid', 'PackedGuid', 'CString', 'Spell']
 
 
-LOGIN_RANDOM_SCALARS = ['u8', 'u16', 'u32', 'u64', 'i32', 'Bool', 'CString', 'String', 'Population', 'IpAddress']
+LOGIN_RANDOM_SCALARS = ['u8', 'u16', 'u32', 'u64', 'i32', 'f32', 'Bool', 'CString', 'String', 'Population', 'IpAddress']
 LOGIN_RANDOM_ELEMS = ['u8']
 
 
@@ -404,10 +404,10 @@ MATRIX_SCALARS = ['u8', 'u16', 'u32', 'u64', 'i32', 'f32', 'Bool', 'Bool32', 'Gu
                   'enum', 'upcast-enum', 'flag', 'const', 'struct-fixed', 'struct-var']
 MATRIX_ARRAYS = [(k, e) for e in ('u8', 'u16', 'u32', 'u64', 'Guid', 'PackedGuid', 'CString', 'Spell', 'struct-fixed', 'struct-var')
                  for k in ('fixed', 'var8', 'var32', 'endless')]
-MATRIX_CONTEXTS = ['top', 'enum-if', 'enum-neq', 'enum-elif-else', 'flag-if', 'struct-in-array', 'struct-member', 'optional', 'self-size-top', 'self-size-struct']
-LOGIN_SCALARS = ['u8', 'u16', 'u32', 'u64', 'i32', 'Bool', 'CString', 'String', 'Population', 'IpAddress', 'enum', 'upcast-enum', 'flag', 'const', 'struct-fixed', 'struct-var']
+MATRIX_CONTEXTS = ['top', 'enum-if', 'enum-neq', 'enum-elif-else', 'flag-if', 'struct-in-array', 'struct-member', 'optional', 'self-size-top', 'self-size-struct', 'self-size-after-const']
+LOGIN_SCALARS = ['u8', 'u16', 'u32', 'u64', 'i32', 'f32', 'Bool', 'CString', 'String', 'Population', 'IpAddress', 'enum', 'upcast-enum', 'flag', 'const', 'struct-fixed', 'struct-var']
 LOGIN_ARRAYS = [(k, e) for e in ('u8', 'struct-fixed', 'struct-var') for k in ('fixed', 'var8', 'var16', 'var32')]
-LOGIN_CONTEXTS = ['top', 'enum-if', 'enum-neq', 'enum-elif-else', 'flag-if', 'struct-in-array', 'self-size-top', 'self-size-struct']
+LOGIN_CONTEXTS = ['top', 'enum-if', 'enum-neq', 'enum-elif-else', 'flag-if', 'struct-in-array', 'self-size-top', 'self-size-struct', 'self-size-after-const']
 
 
 ENUM_CTX = ('enum-if', 'enum-neq', 'enum-elif-else')
@@ -503,12 +503,16 @@ def _wrap(p, ctx, members, tail=True):
             return f'    {name} {p.field("st" + name)};{t}'
         cnt = p.field('amountu_of')
         return f'    u8 {cnt};\n    {name}[{cnt}] {p.field("arr" + name)};{t}'
-    if ctx in ('self-size-top', 'self-size-struct') and 'self-size-in-constant-sized-container' in p.avoid:
+    if ctx in ('self-size-top', 'self-size-struct', 'self-size-after-const') and 'self-size-in-constant-sized-container' in p.avoid:
         # a container whose size is a constant gets no size() method, which the self.size writer calls (known class, own probe):
         # keep these containers variable-sized
         members = members + [f'    CString {p.field("vcstring")};']
     if ctx == 'self-size-top':
         return f'    {p.rng.choice(["u16", "u32"])} {p.field("vsize")} = self.size;\n' + '\n'.join(members) + t
+    if ctx == 'self-size-after-const':
+        # members in front of the size field, one of them constant-valued: the size counts what follows the size field only
+        return (f'    u8 {p.field("vmarker")} = 42;\n    u16 {p.field("vu")};\n    {p.rng.choice(["u16", "u32"])} {p.field("vsize")} = self.size;\n'
+                + '\n'.join(members) + t)
     if ctx == 'self-size-struct':
         name = f'{p.p}St{p.fresh("")}'
         p.helpers.append((name, f'struct {name} {{\n    {p.rng.choice(["u8", "u16", "u32"])} {p.field("vsize")} = self.size;\n' + '\n'.join(members) + '\n}'))
